@@ -8,7 +8,7 @@
 //   <I|T> <seed> <rows> <patch> <team size> <slots>
 //   S <cats> <nsyms> { <cat> <f|t|p|q|n> <weight> <nargs> <argcat>... }
 //   O { N k | M k pgmhex | F k t | X a b k | B k idx cat |
-//       R k idx cat symid parhex nargs args... | D k idx | C k | A k }
+//       R k idx cat symid parhex nargs args... | D k idx | C k | A k | W k }
 // output, one line per case:
 //   W <cat wheels> ; <draws> # <count> # <dump> ; ...
 #include <bits/stdc++.h>
@@ -245,6 +245,19 @@ template<class T> std::string run_case(ctx &cx, const std::vector<std::string> &
         i_mep r(slot[k].destroy_block(idx, cx.prob.sset));
         logging = false;
         slot[k] = r;
+      }
+      else if (op == "W")
+      {
+        // the begin()/end() walk (loci in visiting order), active_symbols() and blocks()
+        k = U(pos++);
+        std::ostringstream o;
+        o << "w";
+        for (auto it(slot[k].begin()); it != slot[k].end(); ++it)
+          o << ',' << it.locus().index << '.' << it.locus().category;
+        o << "|n" << slot[k].active_symbols() << "|b";
+        for (const auto &l : slot[k].blocks())
+          o << ',' << l.index << '.' << l.category;
+        extra = o.str();
       }
       else if (op == "C")
       {
